@@ -4,7 +4,7 @@ import ast
 from ..program import AnalysisError, U, own_nodes, walk_no_nested
 from ..dataflow import ReachingDefs, defs_of_node
 from ..consteval import fold
-from .common import (need, guards_of, calls_to, ext_calls, all_paths_pass, succs, normal_succs, path_conditions,
+from .common import (match_exact, guard_atom_sets, path_atom_sets, unmatched, need, guards_of, calls_to, ext_calls, all_paths_pass, succs, normal_succs, path_conditions,
                      is_param, arg_of, default_of, stores_in_package)
 
 PROPERTY = 'C18'
@@ -105,7 +105,8 @@ def count(R):
     R.ob('C18.count', 'selector count handed to _recv', ok, '_recv(%s)' % (U(rcall.args[0]) if rcall.args else ''), func=q,
          node=rcall)
     lits = {(t, p) for (t, p, tn) in guards_of(g, rn) if tn.kind == 'test'}
-    R.ob('C18.count', 'read attempted whenever readable', (rvar, True) in lits and len([x for x in lits if x[0] != 'websocket.is_closed']) == 1,
+    R.ob('C18.count', 'read attempted whenever readable', match_exact(guard_atom_sets(g, rn), [{(rvar, True)}], optional=[
+        {('websocket.is_closed', False), ('self.websocket.is_closed', False)}]),
          '_recv guarded by %s' % sorted(lits), func=q, node=rcall)
     a0 = wcall.args[0] if wcall.args else None
     R.ob('C18.size', 'wait is asked for BUFFER_SIZE', a0 is not None and U(a0) == 'self.BUFFER_SIZE', 'selector.wait(%s, ...)' % U(a0),
